@@ -2,6 +2,7 @@ package main
 
 import (
 	"bytes"
+	"encoding/json"
 	"fmt"
 	"math/rand"
 
@@ -25,7 +26,28 @@ func c06Payload(ptr int, before [][]byte, sec []byte, stuff int) []byte {
 	return append(p, bytes.Repeat([]byte{0xff}, stuff)...)
 }
 
-func (c06) Gen(tier string, seed int64, emit func([]Ev)) {
+func (c06) Gen(tier string, seed int64, emit0 func([]Ev)) {
+	// Parsing calls are grouped into histories of up to three: what an earlier call returned
+	// must still read the same after the later ones (Exec re-reads it).
+	var pend []Ev
+	groups := 0
+	emit := func(h []Ev) {
+		if op := GS(h[0]["op"]); len(h) == 1 && (op == "pmt" || op == "readpmt") {
+			pend = append(pend, h[0])
+			if len(pend) >= 1+groups%3 {
+				emit0(pend)
+				pend = nil
+				groups++
+			}
+			return
+		}
+		emit0(h)
+	}
+	defer func() {
+		if len(pend) > 0 {
+			emit0(pend)
+		}
+	}()
 	r := rand.New(rand.NewSource(seed))
 	thorough := tier == "thorough"
 	shapes := []int{0, 1, 1, 2, 2, 3, 4, 5, 6, 8, 10, 12, 16, 20, 25, 30, 40}
@@ -191,8 +213,24 @@ func c06Observe(e Ev, pmt psi.PMT, err error) {
 	e["version"], e["cni"] = int(pmt.VersionNumber()), pmt.CurrentNextIndicator()
 }
 
+func c06Snapshot(pmt psi.PMT) string {
+	t := Ev{}
+	c06Observe(t, pmt, nil)
+	b, _ := json.Marshal(t)
+	return string(b)
+}
+
 func (c06) Exec(h []Ev) []Ev {
+	// tables returned by earlier calls of this history, with what they read as then
+	var held []psi.PMT
+	var heldObs []string
+	hold := func(pmt psi.PMT, err error) {
+		if err == nil && pmt != nil {
+			held, heldObs = append(held, pmt), append(heldObs, c06Snapshot(pmt))
+		}
+	}
 	for _, e := range h {
+		e["earlier_same"] = true
 		e["panic"] = guard(func() {
 			switch GS(e["op"]) {
 			case "pmt":
@@ -200,6 +238,7 @@ func (c06) Exec(h []Ev) []Ev {
 				keep := append([]byte(nil), p...)
 				pmt, err := psi.NewPMT(p)
 				c06Observe(e, pmt, err)
+				defer hold(pmt, err)
 				dt := []int{}
 				derr := false
 				for L := 0; L <= len(p); L++ {
@@ -230,6 +269,7 @@ func (c06) Exec(h []Ev) []Ev {
 				}
 				pmt, err := psi.ReadPMT(&buf, GI(e["pid"]))
 				c06Observe(e, pmt, err)
+				defer hold(pmt, err)
 			case "th":
 				th := psi.TableHeader{TableID: uint8(GI(e["tid"])), SectionSyntaxIndicator: GBool(e["ssi"]), PrivateIndicator: GBool(e["priv"]), SectionLength: uint16(GI(e["slen"]))}
 				d := th.Data()
@@ -239,6 +279,11 @@ func (c06) Exec(h []Ev) []Ev {
 					panic("TableHeaderFromBytes rejected its own encoding")
 				}
 				e["back_tid"], e["back_ssi"], e["back_priv"], e["back_slen"] = int(back.TableID), back.SectionSyntaxIndicator, back.PrivateIndicator, int(back.SectionLength)
+			}
+			for i, pmt := range held {
+				if c06Snapshot(pmt) != heldObs[i] {
+					e["earlier_same"] = false
+				}
 			}
 		})
 	}
